@@ -505,27 +505,36 @@ func toFloatPair(x, y any) (float64, float64, bool) {
 	}
 }
 
+func decimalToInt(d decimal128.Decimal) (int, bool, bool) {
+	if d.IsNaN() || !decimal128.Trunc(d).Equal(d) {
+		return 0, true, false
+	}
+
+	i, ok := d.Int64()
+	if !ok {
+		return 0, true, false
+	}
+
+	if i > math.MaxInt || i < math.MinInt {
+		return 0, true, false
+	}
+
+	return int(i), true, true
+}
+
 func toInt(v any) (int, bool, bool) {
 	switch v := v.(type) {
 	case decimal128.Decimal:
-		i, ok := v.Int64()
-		if !ok {
-			return 0, true, false
-		}
-
-		if i > math.MaxInt || i < math.MinInt {
-			return 0, true, false
-		}
-
-		return int(i), true, true
+		return decimalToInt(v)
 	case json.Number:
 		i, err := v.Int64()
 		if err != nil {
-			if _, err = v.Float64(); err != nil {
+			d, err := decimal128.Parse(v.String())
+			if err != nil {
 				return 0, false, false
 			}
 
-			return 0, true, false
+			return decimalToInt(d)
 		}
 
 		if i > math.MaxInt || i < math.MinInt {
